@@ -66,7 +66,7 @@ def build_spec(seed: int, tier: str, enum_index: int | None = None, doc_seed: in
         "meta": a.choice(METAS),
         "fail_on_warning": a.random() < 0.3,
         "output": a.choice(["explicit", "explicit", "derived"]),
-        "config": {"literal_enums": a.random() < 0.2, "generate_all_tags": a.random() < 0.2},
+        "config": docgen.random_config(a, doc),
         "step_limit": STEP_LIMIT,
         "mode": "tree",
         # state of the output location before the command: absent (the usual case), or an existing directory
